@@ -9,7 +9,7 @@ CONSTANTS
   Kinds = {"arch", "param"}
   MaxDec = 2
   MaxDecHi = 2
-  MaxOps = 6
+  MaxOps = 100
 INVARIANT GramDef
 INVARIANT IsInverse
 INVARIANT Symmetric
